@@ -127,7 +127,7 @@ def run(ctx):
     ctx.assumptions += ["operands are single digits 0..9 as the helpers document", "subtraction only with non-negative result"]
     from vlib import apalache
     ctx.notes["unbounded_lemmas"] = apalache.lemmas(["Ind_Mul", "Ind_Div", "Ind_Add"], ctx)
-    return {"scope": {"MaxDigits": 3 if ctx.quick else 5, "flowB_numbers": len(nums), "flowB_max_digits": 1300}}
+    return {"scope": {"MaxDigits": 3 if ctx.quick else 4, "flowB_numbers": len(nums), "flowB_max_digits": 1300}}
 
 
 def replay(ctx, v):
